@@ -39,6 +39,11 @@ Definition untied : list (string * string) :=
 Definition lookup_keys_may_be_unsized : bool := forallb (fun r => negb (g_q_sized r)) sigs.
 Definition sized_lookup_keys : list (string * string) :=
   map (fun r => (g_ty r, g_name r)) (filter g_q_sized sigs).
+(* ... and carries no named lifetime: a parameter that is neither `self` nor a guard (a lookup key, a
+   key or value moved in, a closure) never has to live as long as the result or the guard *)
+Definition lookup_keys_unconstrained : bool := forallb (fun r => match g_key_lts r with [] => true | _ => false end) sigs.
+Definition constrained_lookup_keys : list (string * string * list string) :=
+  map (fun r => (g_ty r, g_name r, g_key_lts r)) (filter (fun r => match g_key_lts r with [] => false | _ => true end) sigs).
 Definition no_static_bounds : bool := forallb (fun r => negb (g_static r)) sigs.
 Definition borrow_rows : nat := List.length (filter borrow_row sigs).
 
